@@ -211,7 +211,8 @@ func (exp *SplitExp) InnerMapSource() MapCallSource {
 			return &NullExp{valExp: exp.valExp}
 		}
 		var inner MapCallSource
-		for _, ev := range e.Value {
+		for _, key := range sortedKeys(e.Value) {
+			ev := e.Value[key]
 			if is, ok := ev.(MapCallSource); !ok || is == nil {
 				return nil
 			} else if inner == nil {
@@ -321,7 +322,8 @@ func (exp *SplitExp) CallMode() CallMode {
 			return ModeNullMapCall
 		}
 		var inner CallMode = -1
-		for _, ev := range e.Value {
+		for _, key := range sortedKeys(e.Value) {
+			ev := e.Value[key]
 			if is, ok := ev.(MapCallSource); !ok || is == nil {
 				if inner == -1 || inner == ModeSingleCall {
 					inner = ModeSingleCall
@@ -578,7 +580,8 @@ func invertSplit(sp *SplitExp, i CollectionIndex) (bool, Exp, error) {
 		m.Value = make(map[string]Exp, len(v.Value))
 		done := true
 		change := false
-		for k, vv := range v.Value {
+		for _, k := range sortedKeys(v.Value) {
+			vv := v.Value[k]
 			d, e, err := getElement(vv, i, true)
 			if err != nil {
 				errs = append(errs, err)
